@@ -12,11 +12,10 @@
    default, proto2 `optional` emitted when present, proto2 `required` always emitted).
    On top: the litep2p post-processing named by the property.
 
-   Third-party parsers that are NOT modelled enter through an oracle dictionary supplied with
+   Multiaddr::try_from and Cid::read_bytes are modelled in Formats.v.  What is NOT modelled
+   (the curve-point check, hash functions) enters through an oracle dictionary supplied with
    each case (kind, key bytes) -> answer:
-     kind 1  Multiaddr::try_from(bytes)           answer [valid; empty; has_p2p_tail] ++ p2p id bytes
      kind 2  ed25519 VerifyingKey::from_bytes     answer [valid]
-     kind 3  Cid::read_bytes                      answer [valid] ++ cid.to_bytes()
      kind 4  Code::try_from(t) + digest(data)     key = varint t ++ data; answer [supported] ++ digest
    Theorems quantify over all dictionaries. *)
 From Coq Require Import List NArith Bool.
@@ -24,6 +23,7 @@ From V.gen Require Consts.
 From V.common Require Import Wire Varint Protobuf.
 From V.C18 Require Model.
 From V.C03 Require Model.
+From V.C19 Require Import Formats.
 Import ListNotations.
 Open Scope N_scope.
 
@@ -76,7 +76,8 @@ Fixpoint orc_find (o : oracle) (kind : N) (key : bytes) : option (list N) :=
   end.
 Definition orc_flag (o : oracle) (kind : N) (key : bytes) : bool :=
   match orc_find o kind key with Some (1 :: _) => true | _ => false end.
-Definition maddr_valid (o : oracle) (b : bytes) : bool := orc_flag o 1 b.
+(* Multiaddr::try_from: the model of Formats.v (the dictionary is not consulted) *)
+Definition maddr_valid (o : oracle) (b : bytes) : bool := maddr_valid_m b.
 
 (* ================================================================== keys.proto *)
 Record pubkey := mkPubkey { k_type : N; k_data : bytes }.
@@ -356,16 +357,16 @@ Definition enc_identify (m : identify) : bytes := encode_fields (fields_identify
 (* the address handling of on_outbound_substream: an address is kept when Multiaddr::try_from
    succeeds, it is not empty, and a trailing /p2p component (if any) names `expect` *)
 Definition addr_kept (o : oracle) (expect : bytes) (a : bytes) : bool :=
-  match orc_find o 1 a with
-  | Some (1 :: empty :: has_p2p :: id) =>
-      (empty =? 0) && ((has_p2p =? 0) || nlist_eqb id expect)
-  | _ => false
-  end.
+  maddr_valid_m a && negb (is_nil a) &&
+  match maddr_last_p2p a with Some id => nlist_eqb id expect | None => true end.
 Record identify_info := mkInfo {
   ii_protocol_version : option bytes; ii_agent : option bytes; ii_protocols : list bytes;
   ii_observed : option bytes; ii_listen : list bytes }.
 (* supported_protocols is a HashSet: sorted, deduplicated here *)
+Definition IDENTIFY_PAYLOAD_SIZE : N := Consts.C19_IDENTIFY_PAYLOAD_SIZE.
 Definition identify_response (o : oracle) (peer local : bytes) (b : bytes) : option identify_info :=
+  if IDENTIFY_PAYLOAD_SIZE <? blen b then None   (* the substream codec refuses the frame *)
+  else
   match dec_identify b with
   | Some m =>
       Some (mkInfo (i_protocol_version m) (i_agent_version m) (sort_dedupe (i_protocols m))
@@ -527,8 +528,7 @@ Definition block_cid (o : oracle) (blk : bs_block) : option bytes :=
   end.
 
 (* on_message_received, as read: wanted cids (valid cid, want type 0/1), responses *)
-Definition cid_of (o : oracle) (b : bytes) : option (list N) :=
-  match orc_find o 3 b with Some (1 :: c) => Some c | _ => None end.
+Definition cid_of (o : oracle) (b : bytes) : option (list N) := cid_read b.
 Definition bs_request (o : oracle) (m : bs_msg) : list (list N * N) :=
   match bs_wantlist_of m with
   | Some w =>
@@ -625,6 +625,69 @@ Definition wl_reply_len (r : V.C03.Model.wl_res) : N :=
   | V.C03.Model.WLErr _ => 0
   end.
 
+(* ================================================================== webrtc.proto (proto2) and its framing *)
+Record wr_msg := mkWr { wr_flag : option N; wr_message : option bytes }.
+Definition wr_msg0 : wr_msg := mkWr None None.
+Definition wr_step (m : wr_msg) (f : field) : option wr_msg :=
+  let '(num, v) := f in
+  if num =? 1 then match v with WVarint n => Some (mkWr (Some (to_u32 n)) (wr_message m)) | _ => None end
+  else if num =? 2 then match v with WLen b => Some (mkWr (wr_flag m) (Some b)) | _ => None end
+  else Some m.
+Definition dec_wr (b : bytes) : option wr_msg :=
+  match top_fields b with Some fs => fold_opt wr_step fs wr_msg0 | None => None end.
+Definition fields_wr (m : wr_msg) : list field :=
+  match wr_flag m with Some f => [(1, WVarint (i32_to_u64 f))] | None => [] end ++ f_opt_bytes 2 (wr_message m).
+(* WebRtcMessage::decode: (payload, flag); a flag outside FIN..FIN_ACK is dropped *)
+Definition webrtc_message (b : bytes) : option (option bytes * option N) :=
+  match dec_wr b with
+  | Some m => Some (wr_message m, match wr_flag m with Some f => if f <? 4 then Some f else None | None => None end)
+  | None => None
+  end.
+(* WebRtcMessage::encode(payload, flag) *)
+Definition webrtc_encode_message (payload : bytes) (flag : option N) : bytes :=
+  let body := encode_fields (fields_wr (mkWr flag (if is_nil payload then None else Some payload))) in
+  encode (blen body) ++ body.
+
+Definition WEBRTC_MAX_FRAME : N := Consts.C19_WEBRTC_MAX_FRAME_SIZE.
+(* extract_framed_message on the bytes buffered so far *)
+Inductive wfr := WfNeedMore | WfErr | WfFrame (body rest : bytes).
+Definition webrtc_extract (b : bytes) : wfr :=
+  match take_varint 10 b with
+  | None => if blen b <? 10 then WfNeedMore else WfErr
+  | Some (pre, rest) =>
+      if minimal pre then
+        let len := value pre mod 2 ^ 64 in
+        if WEBRTC_MAX_FRAME <? len then WfErr             (* refused before waiting for the body *)
+        else if blen rest <? len then WfNeedMore
+        else WfFrame (firstn (N.to_nat len) rest) (skipn (N.to_nat len) rest)
+      else WfErr
+  end.
+
+(* ================================================================== yamux (third-party, opaque) *)
+(* The yamux crate is not modelled; only the one computation behind known finding class 1 is:
+   a WindowUpdate frame with the SYN flag opens a stream with credit `header.credit + DEFAULT_CREDIT`
+   computed in u32 (yamux 0.13.10, connection.rs:730). *)
+Definition YAMUX_DEFAULT_CREDIT : N := 262144.
+Definition u32_add_checked (a b : N) : option N := if a + b <? 2 ^ 32 then Some (a + b) else None.
+Definition be32 (a b c d : N) : N := ((a * 256 + b) * 256 + c) * 256 + d.
+(* walks the frames (12-byte headers; only Data frames carry a body): is there a WindowUpdate|SYN
+   whose credit makes that addition overflow? *)
+Fixpoint yamux_syn_credit_overflow (fuel : nat) (b : bytes) : bool :=
+  match fuel with
+  | O => false
+  | S f =>
+      match b with
+      | _ :: ty :: _ :: f2 :: _ :: _ :: _ :: _ :: l1 :: l2 :: l3 :: l4 :: rest =>
+          let len := be32 l1 l2 l3 l4 in
+          if (ty =? 1) && N.odd f2 && match u32_add_checked len YAMUX_DEFAULT_CREDIT with None => true | Some _ => false end
+          then true
+          else if ty =? 0 then
+            if blen rest <? len then false else yamux_syn_credit_overflow f (skipn (N.to_nat len) rest)
+          else yamux_syn_credit_overflow f rest
+      | _ => false
+      end
+  end.
+
 (* ================================================================== allocation bound *)
 (* What the harness compares the measured peak (bytes allocated during one decode call, input
    excluded) with.  Every decoded byte string is copied once (<= |input| in total); the
@@ -638,5 +701,18 @@ Definition alloc_bound (input_len : N) : N := ALLOC_FACTOR * input_len + ALLOC_C
    each owns an AddressStore whose HashMap is pre-sized for 64 records *)
 Definition KAD_PEER_COST : N := 6144.
 Definition alloc_bound_kad (k input_len : N) : N := alloc_bound input_len + KAD_PEER_COST * (2 * k + 1).
+(* a yamux connection buffers at most one frame body (default limit 1 MiB) plus its windows;
+   the TLS certificate parser works on borrowed DER plus a constant *)
+Definition YAMUX_BOUND : N := 4194304.
+(* the very first frame is the trigger and passes every check that precedes the addition (version 0,
+   WindowUpdate, SYN without RST, odd = client-chosen stream id): the outcome is predicted *)
+Definition yamux_first_frame_trigger (b : bytes) : bool :=
+  match b with
+  | v :: ty :: _ :: f2 :: _ :: _ :: _ :: s4 :: l1 :: l2 :: l3 :: l4 :: _ =>
+      (v =? 0) && (ty =? 1) && N.odd f2 && negb (N.testbit f2 3) && N.odd s4 &&
+      match u32_add_checked (be32 l1 l2 l3 l4) YAMUX_DEFAULT_CREDIT with None => true | Some _ => false end
+  | _ => false
+  end.
+Definition TLS_CONST : N := 65536.
 (* framed receive: the frame buffer (<= max), the frames handed out (<= |stream|), constant *)
 Definition recv_alloc_bound (max stream_len : N) : N := max + 2 * stream_len + ALLOC_CONST.
